@@ -54,7 +54,8 @@ def _setters(f, adt):
     out = []
     for fn in f.all_fns():
         ins = fn.raw.get("inputs") or []
-        if len(ins) >= 2 and ins[0] == "&mut " + adt and fn.raw.get("output") == "&mut " + adt and fn.raw.get("kind") in ("Fn", "AssocFn"):
+        if len(ins) >= 2 and ins[0] == "&mut " + adt and fn.raw.get("output") == "&mut " + adt and fn.raw.get("kind") in ("Fn", "AssocFn") \
+                and (fn.raw.get("vis") == "pub" or fn.path.startswith("<")):  # the public API: inherent pub methods and trait methods
             out.append(fn)
     return sorted(out, key=lambda x: x.path)
 
@@ -228,3 +229,84 @@ def _build_uses_final_values(ctx, rid, f, pe, S0, calls, apply, und):
                  found=_show(got))
         ok = False
     return 1 if ok else 0
+
+
+def c13_r3(ctx, f, rid="C13.R3"):
+    """ImageBuilder's Builder methods act on the inner SvgBuilder exactly as the SvgBuilder's own methods do"""
+    ctx.rule(rid, "option forwarding by partial evaluation: every Builder method of ImageBuilder, applied to the default builder with "
+                  "sample values, leaves its inner SvgBuilder equal to SvgBuilder::default() after the same SvgBuilder method, and "
+                  "changes nothing else")
+    IB, SB = "convert::image::ImageBuilder", "convert::svg::SvgBuilder"
+    ictor = "<%s as std::default::Default>::default" % IB
+    sctor = "<%s as std::default::Default>::default" % SB
+    if IB not in f.adts or SB not in f.adts or f.fn(ictor) is None or f.fn(sctor) is None:
+        ctx.abstain(rid, "ImageBuilder / SvgBuilder defaults not found")
+        return None
+    pe = peval.PEval(f, max_steps=3_000_000)
+    i0, s0 = pe.call(ictor, []), pe.call(sctor, [])
+    if i0.kind != "ret" or s0.kind != "ret" or i0.value == TOP or s0.value == TOP:
+        ctx.abstain(rid, "builder defaults do not fold: %s" % (i0.why or s0.why), where_fn(f.fn(ictor)))
+        return None
+    inames = [fl["name"] for fl in f.adts[IB]["variants"][0]["fields"]]
+    inner = [k for k, fl in enumerate(f.adts[IB]["variants"][0]["fields"]) if fl["ty"] == SB]
+    if len(inner) != 1:
+        ctx.abstain(rid, "ImageBuilder does not hold exactly one SvgBuilder field", where_fn(f.fn(ictor)))
+        return None
+    k_in = inner[0]
+    if _norm(pe, i0.value[4][k_in]) != _norm(pe, s0.value):
+        ctx.fail(rid, IB + "/default-inner", where_fn(f.fn(ictor)), ictor, "default inner builder",
+                 "ImageBuilder::default() does not start from SvgBuilder::default()", expected=_show(_norm(pe, s0.value)),
+                 found=_show(_norm(pe, i0.value[4][k_in])))
+    pre = "<%s as convert::Builder>::" % IB
+    decided, n_ok = True, 0
+    methods = [fn for fn in f.all_fns() if fn.path.startswith(pre) and fn.raw.get("kind") in ("Fn", "AssocFn")]
+    if not methods:
+        ctx.abstain(rid, "ImageBuilder has no Builder methods")
+        return None
+    for fn in sorted(methods, key=lambda x: x.path):
+        name = fn.path[len(pre):]
+        sfn = f.fn("<%s as convert::Builder>::%s" % (SB, name))
+        ins, tyts = fn.raw["inputs"][1:], (fn.raw.get("inputs_tyt") or [])[1:]
+        if sfn is None or len(tyts) != len(ins):
+            ctx.abstain(rid, "no SvgBuilder counterpart / unknown signature for %s" % name, where_fn(fn))
+            decided = False
+            continue
+        for k in (0, 1):
+            args, sub, ok = [], {}, True
+            for ty, tyt in zip(ins, tyts):
+                sm = _samples(f, pe, ty, tyt)
+                if sm is None:
+                    ok = False
+                    break
+                args.append(sm[0][k])
+                if sm[1]:
+                    sub.update(sm[1])
+            if not ok:
+                ctx.abstain(rid, "%s takes a parameter type the rule cannot build: %s" % (name, ins), where_fn(fn))
+                decided = False
+                break
+            ri = pe.call(fn.path, [("cell", 0)] + args, cells=[i0.value], subst=sub or None)
+            rs = pe.call(sfn.path, [("cell", 0)] + args, cells=[s0.value], subst=sub or None)
+            if ri.kind == "diverge":
+                ctx.fail(rid, "%s/panics" % fn.path, where_fn(fn), fn.path, name, "the method panics on a sample value", found=ri.why)
+                break
+            if ri.kind != "ret" or rs.kind != "ret" or not ri.cells or not rs.cells or ri.cells[0] == TOP or rs.cells[0] == TOP:
+                ctx.abstain(rid, "%s does not fold: %s" % (name, ri.why or rs.why), where_fn(fn))
+                decided = False
+                break
+            after = ri.cells[0]
+            if _norm(pe, after[4][k_in]) != _norm(pe, rs.cells[0]):
+                d = _diff(pe, rs.cells[0], after[4][k_in], f, SB)
+                ctx.fail(rid, "%s/forward" % fn.path, where_fn(fn), fn.path, name,
+                         "the option does not reach the inner SVG builder as the SVG builder's own method would set it",
+                         expected=_show(d[0]), found=_show(d[1]))
+                break
+            others = [(n, _norm(pe, a), _norm(pe, b)) for j, (n, a, b) in enumerate(zip(inames, i0.value[4], after[4])) if j != k_in]
+            changed = [n for n, a, b in others if a != b]
+            if changed:
+                ctx.fail(rid, "%s/other-fields" % fn.path, where_fn(fn), fn.path, name, "the method also changes %s" % changed)
+                break
+            n_ok += 1
+    if n_ok:
+        ctx.ok(rid, "%d (method, value) applications forward exactly" % n_ok, n=n_ok)
+    return decided
